@@ -252,7 +252,7 @@ def harnesses(tier):
     hs.append(('getitem/(2,2)', P(h_getitem, (2, 2))))
     for sa, sb in ([((), ()), ((2,), (2,)), ((), (2,))] if q else [((), ()), ((2,), (2,)), ((), (2,)), ((2, 1), (1, 2)), ((3,), (3,))]):
         hs.append((f'arith/{sa}{sb}', P(h_arith, sa, sb)))
-    for shape in ([(), (2,)] if q else [(), (2,), (1, 2)]):
+    for shape in ([(), (2,), (1, 2), (2, 2)] if q else [(), (2,), (1, 2), (2, 2), (2, 1, 2)]):
         for au in (['deg'] if q else ['deg', 'rad', 'arcmin']):
             hs.append((f'rotate/{shape}/{au}', P(h_rotate, shape, au)))
     for shape in [(), (3,), (2, 2)]:
@@ -271,10 +271,10 @@ def cases(tier, seed):
 META = {
     'functions_encoded': ['regions.core.pixcoord.PixCoord.__init__/copy/isscalar/__len__/__iter__/__getitem__/__add__/'
                           '__sub__/__eq__/to_sky/from_sky/separation/xy/rotate'],
-    'bounds': {'quick': {'shapes': 'scalar, (0,), (2,), (3,), (2,2), (1,3)+(3,1), non-broadcastable pairs',
+    'bounds': {'quick': {'shapes': 'scalar, (0,), (2,), (3,), (2,2), (1,3)+(3,1), non-broadcastable pairs; rotation on scalar, (2,), (1,2), (2,2)',
                          'index expressions': '11 1-D keys, 10 2-D keys', 'elements': 'unbounded reals',
                          'rotation': 'two arbitrary angles (unit-circle atoms), arbitrary centre'},
-               'thorough': {'shapes': 'as quick + (2,1)+(1,2), (1,2)', 'angle_units': ['deg', 'rad', 'arcmin'],
+               'thorough': {'shapes': 'as quick + (2,1)+(1,2), (1,2); rotation also on (2,1,2)', 'angle_units': ['deg', 'rad', 'arcmin'],
                             'elements': 'unbounded reals'}},
     'outside_claim': ['real WCS numerics (astropy.wcs C code): the WCS is an opaque invertible stub; what is checked is '
                       'that x, y, origin and mode are forwarded unchanged in both directions',
